@@ -33,6 +33,10 @@ UBSAN_FLAGS = ["-fsanitize=undefined,float-cast-overflow,unsigned-integer-overfl
                "-fno-sanitize=vptr,function"]
 
 
+class LibraryRejects(Exception):
+    """a program that only uses the public API is rejected (compile or link) with the failure located in Au itself"""
+
+
 class ToolError(Exception):
     """A tool (TLC, compiler, harness) failed in a way that is not a verdict."""
 
@@ -343,7 +347,10 @@ class Ctx:
         recs = []
         for line in out.splitlines():
             if line.startswith("{"):
-                recs.append(json.loads(line))
+                try:
+                    recs.append(json.loads(line))
+                except ValueError:
+                    raise ToolError("harness %s printed a malformed record: %s" % (os.path.basename(binary), line[:600]))
         return recs
 
     # ------------------------------------------------------------------ findings
